@@ -1,12 +1,267 @@
-"""C09: structural clauses (see DESIGN.md section 4)."""
+"""C09 variable-length padding / chunking: forwarding (G5/G1), pad-mode tables (G8), eval
+identity (G9), random pad amounts (structural interval argument), truncating slices (G23)."""
 from __future__ import annotations
 
+import ast
+
+from rules import enum as R_enum
 from rules import fwd as R_fwd
+from rules.trunc import TruncAnalysis
+from sa.astutil import call_name, guards_of, parent_map, u
+from sa.defuse import ReachingDefs
+from sa.model import AnalysisError, own_calls, own_nodes
+from sa.resolve import bind_args
 from .common import Ctx, plumbing
+
+MOD = "_pad"
 
 
 def run(ctx: Ctx):
-    plumbing(ctx, 'S1')
-    R_fwd.g5_module_pairs(ctx.pkg, ctx.res, ctx.col, only=['chunk_by_slices', 'pad_masked_sequence', 'pad_variable', 'random_shift'], clause='S1')
-    ctx.col.floor('g5_pairs', ctx.col.counts.get('g5_pairs', 0), 4)
-    return dict(explanation='plumbing clauses only (work in progress)', decided=['S1'], not_decided=[])
+    col, pkg, res = ctx.col, ctx.pkg, ctx.res
+    rel = pkg.module(MOD).relname
+    gpb = pkg.func(f"{MOD}::_get_padding_buffers")
+    pv = pkg.func(f"{MOD}::pad_variable")
+    cbs = pkg.func(f"{MOD}::chunk_by_slices")
+    rs = pkg.func("_img::random_shift")
+
+    # ---- S1 forwarding -------------------------------------------------------------------------------
+    R_fwd.g5_module_pairs(pkg, res, col, only={"pad_variable", "pad_masked_sequence", "chunk_by_slices", "random_shift"},
+                          clause="S1")
+    col.floor("g5_pairs", col.counts.get("g5_pairs", 0), 4)
+    # (x, lens, left_pad, right_pad, mode) at the two kernel call sites: left/right are transposable
+    for f, want in ((pv, {"x": "x", "lens": "lens", "left_pad": "pad[0]", "right_pad": "pad[1]", "mode": "mode"}),
+                    (cbs, {"x": "x", "lens": "lens", "left_pad": "left_pad", "right_pad": "right_pad", "mode": "mode"})):
+        calls = [c for c in own_calls(f.node) if call_name(c) == "_get_padding_buffers"]
+        if len(calls) != 1:
+            raise AnalysisError(f"C09: {f.qualname} does not call _get_padding_buffers exactly once")
+        b = bind_args(calls[0], gpb, False)
+        got = {p.name: u(a) for p, a, _ in b.pairs}
+        col.ob("G1", "S1", f"{rel}::{f.qualname}::_get_padding_buffers-binding", got == want,
+               f"{f.name} calls the buffer kernel with {got}, expected {want}", rel, calls[0].lineno, sample=got)
+        # the two returned buffers are scattered on their own sides
+        st = None
+        pm = parent_map(f.node)
+        for n in own_nodes(f.node):
+            if isinstance(n, ast.Assign) and n.value is calls[0] and isinstance(n.targets[0], ast.Tuple):
+                st = n
+        if st is None:
+            raise AnalysisError(f"C09: {f.qualname} does not unpack the two padding buffers")
+        lname, rname = [t.id for t in st.targets[0].elts]
+        sc = [c for c in own_calls(f.node) if isinstance(c.func, ast.Attribute) and c.func.attr == "masked_scatter" and len(c.args) == 2]
+        sides = {}
+        for c in sc:
+            src = u(c.args[1])
+            m = u(c.args[0])
+            if src == lname:
+                sides["left"] = m
+            elif src == rname and "right" not in sides:
+                sides["right"] = m
+        okl = "left" in sides and "left_mask" in sides["left"] and "right" not in sides["left"]
+        okr = "right" in sides and "right_mask" in sides["right"]
+        col.ob("G2", "S1", f"{rel}::{f.qualname}::buffers-scattered-on-own-side", okl and okr,
+               f"left buffer scattered under `{sides.get('left')}`, right buffer under `{sides.get('right')}`", rel,
+               st.lineno, sample=sides)
+    # chunk_by_slices: left pad from a negative start, right pad from an end beyond the length
+    rd = ReachingDefs(cbs.node)
+    defs = {d.name: d.value for d in rd.defs if d.kind == "assign" and d.name in ("left_pad", "right_pad") and d.value is not None}
+    okpads = "left_pad" in defs and u(defs["left_pad"]).startswith("(-start).clamp_min_(0)") and \
+        "right_pad" in defs and u(defs["right_pad"]).startswith("(end - lens).clamp_min_(0)")
+    col.ob("G12", "S1", f"{rel}::chunk_by_slices::pad-amounts", okpads,
+           f"left/right pad amounts are {u(defs.get('left_pad'))} / {u(defs.get('right_pad'))}; expected "
+           f"max(-start, 0) and max(end - lens, 0) (empty slices masked to 0)", rel, cbs.line)
+    # random_shift -> pad_variable
+    calls = [c for c in own_calls(rs.node) if call_name(c) == "pad_variable"]
+    col.floor("random_shift_pad_calls", len(calls), 1)
+    for c in calls:
+        b = bind_args(c, pv, False)
+        got = {p.name: u(a) for p, a, _ in b.pairs}
+        col.ob("G1", "S1", f"_img.py::random_shift::pad_variable-binding",
+               got == {"x": "input", "lens": "in_lens", "pad": "pad", "mode": "mode", "value": "value"},
+               f"random_shift pads with {got}", "_img.py", c.lineno, sample=got)
+
+    # ---- S2 pad-mode tables -------------------------------------------------------------------------------
+    mi = pkg.module(MOD)
+    padm = R_enum.literal_members(pkg, res, mi, ast.Name(id="PadMode", ctx=ast.Load()))
+    rsm = R_enum.literal_members(pkg, res, pkg.module("_img"), ast.Name(id="RandomShiftMode", ctx=ast.Load()))
+    if padm is None or rsm is None:
+        raise AnalysisError("C09: PadMode / RandomShiftMode Literal aliases not found")
+    R_enum.g8_dispatch(pkg, res, col, gpb, "mode", "S2", members=padm, allow_else=0)
+    col.ob("G8", "S2", "_img.py::RandomShiftMode<=PadMode", set(rsm) <= set(padm),
+           f"RandomShift accepts modes {rsm} but the padding kernel implements {padm}", "_img.py", 1,
+           sample=dict(random_shift=rsm, pad=padm))
+    # the dispatch ends in else: raise
+    pm = parent_map(gpb.node)
+    last_else_raises = False
+    for n in own_nodes(gpb.node):
+        if isinstance(n, ast.If) and u(n.test).startswith("mode =="):
+            cur = n
+            while cur.orelse and len(cur.orelse) == 1 and isinstance(cur.orelse[0], ast.If):
+                cur = cur.orelse[0]
+            if cur.orelse and any(isinstance(x, ast.Raise) for x in cur.orelse):
+                last_else_raises = True
+    col.ob("G8", "S2", f"{rel}::_get_padding_buffers::unknown-mode-raises", last_else_raises,
+           "an unknown padding mode does not raise", rel, gpb.line)
+    # placeholders: under the mode for which the kernel returns the input itself as placeholder buffers, both
+    # callers skip the buffer scatters
+    placeholder_modes = set()
+    for n in own_nodes(gpb.node):
+        if isinstance(n, ast.Assign) and len(n.targets) == 2 and u(n.value) == gpb.params[0].name:
+            for t, pol in guards_of(pm, n):
+                if isinstance(t, ast.Compare) and u(t.left) == "mode" and pol:
+                    placeholder_modes.add(t.comparators[0].value)
+    col.ob("G8", "S2", f"{rel}::_get_padding_buffers::placeholder-modes", placeholder_modes == {"constant"},
+           f"the kernel returns placeholder buffers for modes {sorted(placeholder_modes)}", rel, gpb.line)
+    for f in (pv, cbs):
+        pmf = parent_map(f.node)
+        st_names = None
+        for n in own_nodes(f.node):
+            if isinstance(n, ast.Assign) and isinstance(n.value, ast.Call) and call_name(n.value) == "_get_padding_buffers":
+                st_names = {t.id for t in n.targets[0].elts}
+        bad = []
+        for c in own_calls(f.node):
+            if isinstance(c.func, ast.Attribute) and c.func.attr == "masked_scatter" and len(c.args) == 2 \
+                    and u(c.args[1]) in (st_names or set()):
+                gs = guards_of(pmf, c)
+                if not any(u(t) == "mode != 'constant'" and pol for t, pol in gs):
+                    bad.append(c)
+        col.ob("G8", "S2", f"{rel}::{f.qualname}::buffer-scatters-skipped-for-placeholders", not bad,
+               f"`{u(bad[0])[:70] if bad else ''}` scatters a placeholder buffer in constant mode", rel,
+               bad[0].lineno if bad else f.line)
+
+    # ---- S3 evaluation mode is the identity -----------------------------------------------------------------
+    pmr = parent_map(rs.node)
+    idret = []
+    for n in own_nodes(rs.node):
+        if isinstance(n, ast.Return):
+            gs = guards_of(pmr, n)
+            if any((u(t) == "training" and not pol) or (u(t) == "not training" and pol) for t, pol in gs):
+                idret.append(n)
+    rdr = ReachingDefs(rs.node)
+    ok3 = len(idret) == 1 and isinstance(idret[0].value, ast.Tuple) and [u(x) for x in idret[0].value.elts] == ["input", "in_lens"] \
+        and all(all(d.kind == "param" for d in rdr.defs_of(x)) for x in idret[0].value.elts)
+    col.ob("G9", "S3", "_img.py::random_shift::eval-identity", ok3,
+           "in evaluation mode random_shift does not return the parameter objects (input, in_lens) themselves", "_img.py",
+           idret[0].lineno if idret else rs.line, sample=u(idret[0].value) if idret else None)
+    m = pkg.func("_img::RandomShift.forward")
+    calls = [c for c in own_calls(m.node) if call_name(c) == "random_shift"]
+    okt = len(calls) == 1 and u(calls[0].args[-1]) == "self.training" or any(
+        k.arg == "training" and u(k.value) == "self.training" for c in calls for k in c.keywords)
+    col.ob("G9", "S3", "_img.py::RandomShift.forward::passes-self.training", okt,
+           "RandomShift.forward does not pass self.training (the layer would shift in evaluation mode)", "_img.py", m.line)
+
+    # ---- S4 random pad amounts: trunc(u * prop * len), u in [0, 1) -----------------------------------------------
+    steps = []
+    for n in own_nodes(rs.node):
+        if isinstance(n, (ast.Assign, ast.AugAssign)) and u(n.targets[0] if isinstance(n, ast.Assign) else n.target) == "pad":
+            steps.append(n)
+    steps.sort(key=lambda n: n.lineno)
+    shape = []
+    for n in steps:
+        if isinstance(n, ast.Assign) and isinstance(n.value, ast.Call) and call_name(n.value) == "torch.stack":
+            els = n.value.args[0].elts if isinstance(n.value.args[0], (ast.List, ast.Tuple)) else []
+            okp = len(els) == 2 and all(isinstance(e, ast.BinOp) and isinstance(e.op, ast.Mult) for e in els) \
+                and [u(e.left) for e in els] == ["prop[0]", "prop[1]"] and len({u(e.right) for e in els}) == 1
+            shape.append("stack(prop[0]*len, prop[1]*len)" if okp else "stack(?)")
+        elif isinstance(n, ast.AugAssign) and isinstance(n.op, ast.Mult) and isinstance(n.value, ast.Call) \
+                and call_name(n.value) in ("torch.rand_like", "torch.rand"):
+            shape.append("*=rand")
+        elif isinstance(n, ast.Assign) and u(n.value) == "pad.long()":
+            shape.append("long")
+        else:
+            shape.append(u(n)[:40])
+    col.ob("G12", "S4", "_img.py::random_shift::pad=trunc(rand*prop*len)", shape == ["stack(prop[0]*len, prop[1]*len)", "*=rand", "long"],
+           f"the pad amounts are built by {shape}; expected (left, right) = trunc(u * prop * len) with u in [0, 1), "
+           f"which bounds each side by prop * len and keeps it a non-negative whole number", "_img.py",
+           steps[0].lineno if steps else rs.line, sample=shape)
+    lens_def = [d.value for d in rdr.defs if d.name == "in_lens_" and d.value is not None]
+    col.ob("G12", "S4", "_img.py::random_shift::len-source", len(lens_def) == 1 and u(lens_def[0]) == "in_lens.float()",
+           "the proportion is not applied to in_lens", "_img.py", rs.line)
+    ol = [d.value for d in rdr.defs if d.name == "out_lens" and d.value is not None]
+    col.ob("G12", "S4", "_img.py::random_shift::out_lens=in_lens+pad.sum(0)", len(ol) == 1 and u(ol[0]) == "in_lens + pad.sum(0)",
+           f"reported output lengths are `{u(ol[0]) if ol else None}`", "_img.py", rs.line)
+    # prop validated non-negative (and < 1 for reflect) by the Module
+    init = pkg.func("_img::RandomShift.__init__")
+    txt = " ".join(u(n) for n in own_nodes(init.node) if isinstance(n, (ast.If, ast.Call)))
+    col.ob("G3", "S4", "_img.py::RandomShift.__init__::prop-validated", "prop" in txt and ("< 0" in txt or "is_nonnegf" in txt or "as_nonnegf" in txt or "is_gte" in txt),
+           "RandomShift does not validate that proportions are non-negative", "_img.py", init.line, nontrivial=False)
+
+    # ---- S5 truncating slices ---------------------------------------------------------------------------------
+    nsites = 0
+    for f in (gpb, pv, cbs):
+        ta = TruncAnalysis(f)
+        bad = [s for s in ta.sites if not s["ok"]]
+        nsites += len(ta.sites)
+        by_branch = {}
+        for s in bad:
+            by_branch.setdefault(s["branch"], []).append(s)
+        if not bad:
+            col.ob("G23", "S5", f"{rel}::{f.qualname}::index-slices-cover-their-extent", True, "", rel, f.line,
+                   sample=[dict(slice=u(s['node']), extent=s['extents']) for s in ta.sites][:4])
+        for br, ss in by_branch.items():
+            s0 = ss[0]
+            col.ob("G23", "S5", f"{rel}::{f.qualname}::truncating-slice[{br}]", False,
+                   f"`{u(s0['node'])}` slices an index range of extent {s0['extents']} to `{s0['k']}` entries and the "
+                   f"result is used against an axis of size `{s0['k']}`: when the pad exceeds the time dimension the "
+                   f"slice is silently shorter and the shapes disagree at run time", rel, s0["node"].lineno,
+                   sample=[u(s['node']) for s in ss])
+    col.floor("index_slice_sites", nsites, 12)
+    plumbing(ctx, "S1")
+    return dict(
+        explanation=(
+            "Decides for C09: (S1) Module->functional forwarding, kernel bindings with left/right in order, buffers "
+            "scattered on their own sides, pad amounts of chunk_by_slices = max(-start, 0) / max(end - lens, 0); (S2) "
+            "PadMode == kernel dispatch (else raises), RandomShiftMode <= PadMode, buffer scatters skipped exactly for "
+            "the placeholder mode; (S3) random_shift returns its parameters themselves in evaluation mode and the "
+            "layer passes self.training; (S4) pad amounts are trunc(u * prop * len), u in [0, 1), output lengths "
+            "in_lens + pad.sum(0); (S5) every index-range slice is covered by construction or by a dominating guard "
+            "[F16 repaired]. NOT decided: equality with per-sequence pad-and-slice, the reflect offset correction, "
+            "pad_masked_sequence layout (index arithmetic on tensors)."),
+        decided=["S1", "S2", "S3", "S4", "S5"],
+        not_decided=["equality with per-sequence torch padding", "reflect offset correction", "pad_masked_sequence layout"],
+        assumptions=["torch.rand_like draws from [0, 1)", ".long() truncates toward zero"],
+    )
+
+
+def _mutants():
+    from selftest.mutate import Mutant as M
+    P = "_pad.py"
+    I = "_img.py"
+    return [
+        M("arange-extent-T-again", P, "arange = torch.arange(max(T, int(left_max.item()), int(right_max.item())), device=x.device)", "arange = torch.arange(T, device=x.device)",
+          "truncating-slice"),
+        M("pad-variable-extent-T", P, "arange = torch.arange(max(Tp, T), device=x.device)", "arange = torch.arange(T, device=x.device)", "truncating-slice"),
+        M("reflect-guard-dropped", P, "if (left_pad >= lens).any() or (right_pad >= lens).any():", "if (left_pad >= lens).any():", "truncating-slice"),
+        M("left-right-swapped", P, "_get_padding_buffers(x, lens, pad[0], pad[1], mode)", "_get_padding_buffers(x, lens, pad[1], pad[0], mode)", "_get_padding_buffers-binding"),
+        M("chunk-left-right-swapped", P, "_get_padding_buffers(x, lens, left_pad, right_pad, mode)", "_get_padding_buffers(x, lens, right_pad, left_pad, mode)", "G1"),
+        M("buffers-swapped-on-unpack", P, "left_buf, right_buf = _get_padding_buffers(x, lens, pad[0], pad[1], mode)", "right_buf, left_buf = _get_padding_buffers(x, lens, pad[0], pad[1], mode)", "G2"),
+        M("mode-arm-typo", P, "elif mode == 'replicate':", "elif mode == 'replicat':", "G8/S2"),
+        M("scatter-in-constant-mode", P, "if mode != 'constant':\n        padded = padded.masked_scatter(left_mask, left_buf)", "if True:\n        padded = padded.masked_scatter(left_mask, left_buf)", "buffer-scatters-skipped"),
+        M("eval-returns-clone", I, "else:\n        return (input, in_lens)", "else:\n        return (input.clone(), in_lens)", "eval-identity"),
+        M("layer-ignores-training", I, "return random_shift(input, in_lens, self.prop, self.mode, self.value, self.training)", "return random_shift(input, in_lens, self.prop, self.mode, self.value)", "G"),
+        M("pad-rounds-up", I, "pad = pad.long()", "pad = pad.ceil().long()", "pad=trunc(rand*prop*len)"),
+        M("pad-no-rand", I, "pad *= torch.rand_like(pad)", "pad *= 1 + torch.rand_like(pad)", "pad=trunc(rand*prop*len)"),
+        M("props-swapped", I, "pad = torch.stack([prop[0] * in_lens_, prop[1] * in_lens_])", "pad = torch.stack([prop[1] * in_lens_, prop[0] * in_lens_])", "pad=trunc(rand*prop*len)"),
+        M("out-lens-one-side", I, "out_lens = in_lens + pad.sum(0)", "out_lens = in_lens + pad[0]", "out_lens"),
+        M("right-pad-from-start", P, "right_pad = (end - lens).clamp_min_(0).masked_fill_(empty, 0)", "right_pad = (end - start).clamp_min_(0).masked_fill_(empty, 0)", "pad-amounts"),
+        M("twin:rename-left-max", P, "left_max", "lmax", "", -1, twin=True),
+    ]
+
+
+def selftest(ctx: Ctx):
+    from selftest.mutate import run_selftest
+    return run_selftest("C09", ctx.pkg.repo, _mutants(), floor=12)
+
+
+MANIFEST = dict(
+    level_text=(
+        "Static analysis (no execution) of the padding/chunking kernels: forwarding and left/right argument binding, "
+        "pad-mode table agreement (Literal == dispatch, placeholder mode skipped by both callers), evaluation-mode "
+        "identity of random_shift, a structural interval argument for the random pad amounts (trunc(u*prop*len), u in "
+        "[0,1)), and the truncating-slice rule: every slice of an index range to k entries is covered by construction "
+        "(extent is a max including k) or by a dominating guard bounding k by the lengths. Necessary conditions of C09 "
+        "('any size for constant and replicate'); equality with per-sequence pad-and-slice is not decided."),
+    level_note="Trusted: python ast; torch.rand_like in [0,1); broadcasting semantics. F16 (replicate pad larger than the "
+               "time dimension raised RuntimeError) was found by G23 and repaired.",
+    technique="static analysis: index-range extent/cover analysis with guard dominance, literal-table agreement, argument binding, eval-path identity",
+    design_ref="DESIGN.md section 4 C09, section 3 G23",
+)
